@@ -131,4 +131,29 @@ theorem C13_wake_skeleton :
     skelOf "src/low_level/pipe.rs" "wake#1" = ["write", "send.nowait"] := by decide
 
 
+/-- the method chosen for a descriptor and whether it may block depend only on what `close` leaves alone -/
+theorem burst_close (m : Method) (fd : Fd) (n : Nat) : (burst m (close fd) n).2 = (burst m fd n).2 := by
+  induction n generalizing fd with
+  | zero => rfl
+  | succ n ih =>
+    simp only [burst]
+    have hw : (wake m (close fd)).2 = (wake m fd).2 := by
+      by_cases h : fd.fill + fd.empties < fd.cap <;> cases m <;> (simp [wake, close, h] <;> try rfl)
+    have hf : (wake m (close fd)).1 = close (wake m fd).1 := by
+      by_cases h : fd.fill + fd.empties < fd.cap <;> cases m <;> (simp [wake, close, h] <;> try rfl)
+    rw [hw, hf, ih]
+
+/-- **C13.shared_description_never_blocks** — two registrations on descriptors that share one open file
+description (`dup`): each classifies the description when it registers; when the first registration goes away
+its descriptor is closed, which leaves the description - its `O_NONBLOCK`, its contents - as it is; no wake-up
+of the second registration can block afterwards, whatever the description's kind, flags and fill were. -/
+theorem C13_shared_description_never_blocks (fd : Fd) (n : Nat) :
+    let fd1 := (classify fd).2                 -- after the first registration
+    let m2 := (classify fd1).1                 -- the second registration's method
+    let fd2 := (classify fd1).2
+    ∀ r ∈ (burst m2 (close fd2) n).2, r ≠ .blocks := by
+  intro fd1 m2 fd2
+  rw [burst_close]
+  exact C13_never_blocks fd1 n
+
 end SigHook.Pipe
